@@ -43,6 +43,8 @@ type PoolScenario struct {
 	// until the explorer lets the backend drain it ("drain-conn j" event).
 	StallBytes int   `json:"stallBytes,omitempty"`
 	Choices    []int `json:"choices"`
+	// AltCap > 0: at every decision only the default and its AltCap nearest alternatives are explored.
+	AltCap int `json:"altCap,omitempty"`
 }
 
 type poolDecision struct {
@@ -236,7 +238,7 @@ func RunPool(sc PoolScenario, prefix []int) *PoolResult {
 	}
 	lateOp := wire.Op{Kind: "set", Key: "late", Val: "late-value", Flags: 77}
 	cutsLeft := sc.MaxCuts
-	maxSteps := 40 + 12*sc.MaxCuts
+	maxSteps := 40 + 12*sc.MaxCuts + 8*len(sc.Callers)
 	if len(sc.Yields) > 0 {
 		maxSteps += 60
 	}
